@@ -425,7 +425,7 @@ func c16Draw(c *hx.Ctx) editCase {
 }
 
 func runC16(c *hx.Ctx) {
-	for i := 0; i < c.N(4000); i++ {
+	for i := 0; i < c.N(5000); i++ {
 		ec := c16Draw(c)
 		run := editRecord(c, ec, "all")
 		if run == nil {
